@@ -230,6 +230,43 @@ pub(crate) fn run(opts: &Opts, report: &mut Report) {
             }
             k += SLICES as u64;
         }
+        // ---- thorough: a second crash at every write point of the recovery, for the crash
+        // points of this slice of the first two sync histories and the first fork history
+        if thorough && (hi < 2 || h.name.starts_with("fork/depth1/growth3/set1")) {
+            let mut k = slice as u64;
+            while k < total {
+                // how many write points does the recovery after a crash at k have?
+                let (_s, out1) = explore::run_with_crashes(h.sc.as_ref(), &h.devs, Some(k), None, false);
+                let rec = out1.recovery_writes;
+                for j in 0..rec {
+                    crate::verif::props::shard::journal(&format!("{} crash@{} + crash@{} of the recovery", h.name, k, j));
+                    let (sim, out) = explore::run_with_crashes(h.sc.as_ref(), &h.devs, Some(k), Some(j), false);
+                    report.count("double_crash_points", 1);
+                    let mut bad: Vec<(String, String)> = vec![];
+                    if let Some(p) = &out.reopen_panic {
+                        bad.push(("store-unusable-after-crash".into(), format!("reopen / start-up panics: {}", p.describe())));
+                    } else if let Some(sim) = &sim {
+                        let banned = !sim.bans().is_empty() || !sim.c().out.disconnects().is_empty();
+                        if banned && out.run.panic.is_none() {
+                            report.count("cases_not_judged_honest_peer_banned", 1);
+                            continue;
+                        }
+                        let mut judged = c03::judge_run(sim, &out.run, &h.regs, &[]);
+                        judged.retain(|(c, _)| !c.starts_with("uncommitted-record/TxHash") && !c.starts_with("uncommitted-record/BlockHash") && !c.starts_with("uncommitted-record/BlockNumber"));
+                        bad.extend(judged);
+                    }
+                    for (class, items) in oracle::group(bad) {
+                        let hist_kind = h.name.split('/').next().unwrap_or("").to_owned();
+                        report.violation(
+                            format!("{}/{}/double-crash", class, hist_kind),
+                            format!("[{}] crash at write {} of {}, then at write {} of {} of the recovery: {}", h.name, k, total, j, rec, items[0]),
+                            json!({"history": h.name, "crash_at_write": k, "second_crash_at_recovery_write": j, "all": items.iter().take(6).collect::<Vec<_>>()}),
+                        );
+                    }
+                }
+                k += SLICES as u64;
+            }
+        }
         report.count("crash_points", points);
         if item == 1 {
             report.sample(json!({"history": h.name, "write_points": total, "case": "crash at write 17: unwind inside the handler, drop all objects, reopen, reconnect (chain +1 block), converge, judge by the reference index"}));
